@@ -37,6 +37,14 @@ def split_top(s, sep=","):
     i = 0
     while i < len(s):
         c = s[i]
+        if c == '"':
+            # string literal: copy through the closing quote
+            j = i + 1
+            while j < len(s) and s[j] != '"':
+                j += 2 if s[j] == "\\" else 1
+            cur += s[i:j + 1]
+            i = j + 1
+            continue
         if c in "([{<":
             depth += 1
         elif c in ")]}":
@@ -496,7 +504,7 @@ class Executor:
             return None
         if len(comps) >= 2 and (comps[-2] + "::" + comps[-1]) in self.enums:
             return self.enums[comps[-2] + "::" + comps[-1]]
-        return self.enums.get(comps[-1])
+        return self.enums.get(comps[-1]) or KNOWN_ENUMS.get(comps[-1])
 
     def const_val(self, text, want_sort=None):
         t = text.strip()
@@ -506,9 +514,15 @@ class Executor:
         if m:
             s = sort_of_type(m.group(2))
             return Val(bvconst(int(m.group(1)), s[1]), s)
-        m = re.match(r"^((?:[\w:<>, ]+::)?\w+)::(\w+)$", t)
+        m = re.match(r"^(.+?)::(\w+)$", t) if "(" not in t and "{" not in t else None
         if m and self.enum_table(m.group(1)) and m.group(2) in self.enum_table(m.group(1)):
             return ("enum", m.group(1), self.enum_table(m.group(1)).index(m.group(2)))
+        m = re.match(r"^[A-Za-z_][\w:]*(?:::<.*>)?\((.*)\)$", t)
+        if m:
+            # tuple-struct constant `Name(c0, c1, ..)`: its fields (constants without the `const` keyword)
+            return ("tuple", [self.const_val(x) for x in split_top(m.group(1))])
+        if re.match(r"^[A-Za-z_][\w:<>, ]*\{\{.*\}\}$", t):
+            return ("unit",)      # struct constant printed field by field (e.g. alloc Layout): opaque, leaves unconstrained
         if t.startswith('"') or re.match(r"^[A-Za-z_][\w:]*$", t) or t == "()" or t.startswith("PhantomData") or t.startswith("ZeroSized:") or t.startswith("{closure@"):
             return ("unit",)      # field-less ADT constant (unit struct, PhantomData): no leaves
         raise Untranslatable("constant " + t)
@@ -612,6 +626,9 @@ class Executor:
             st.store[key + "#discr"] = Val(bvconst(v[2], 64), ("bv", 64, True))
         elif v[0] == "unit":
             pass
+        elif v[0] == "tuple":
+            for i, x in enumerate(v[1]):
+                self.put_at(st, key + ".%d" % i, x)
         else:
             raise Untranslatable("aggregate field " + repr(v))
 
@@ -632,6 +649,9 @@ class Executor:
                 pass
             elif v[0] == "enum":
                 st.store[dst.key() + "#discr"] = Val(bvconst(v[2], 64), ("bv", 64, True))
+            elif v[0] == "tuple":
+                self.clear_prefix(st, dst.key())
+                self.put_at(st, dst.key(), v)
             else:
                 raise Untranslatable("assign " + repr(v))
 
@@ -698,6 +718,14 @@ class Executor:
                 # single-pointer wrapper (NonNull / Unique) reinterpreted as a raw pointer
                 st.refs[dst.key()] = Place("*" + v[1].key())
                 return
+            if m.group(3) == "Transmute" and not isinstance(v, Val):
+                tgt = m.group(2).strip()
+                if v[0] == "unit" and tgt.startswith(("&", "*const", "*mut")):
+                    st.refs[dst.key()] = Place("*" + dst.key())      # pointer to opaque constant data
+                    return
+                if v[0] == "ref" and sort_of_type(tgt) is not None:
+                    put(self.fresh("addr:" + dst.key(), sort_of_type(tgt)))   # address of an object: an arbitrary word
+                    return
             if m.group(3) not in ("IntToInt",):
                 raise Untranslatable("cast kind " + m.group(3))
             put(self.cast(v, m.group(2)))
@@ -820,8 +848,15 @@ class Executor:
             return ("agg", v[1].key())
         return ("other", repr(v))
 
-    def builtin(self, short, callee, args):
+    def builtin(self, short, callee, args, st=None):
         """exact models of a few std functions that are not worth inlining"""
+        m = re.search(r"raw_eq::<\[u8; (\d+)\]>$", callee)
+        if m and st is not None and int(m.group(1)) <= 32 and len(args) == 2 and all(not isinstance(a, Val) and a[0] == "ref" for a in args):
+            # bytewise comparison of two fixed arrays behind references
+            n = int(m.group(1))
+            u8 = ("bv", 8, False)
+            eqs = ["(= %s %s)" % (self.read_key(st, args[0][1].key() + "[%d]" % i, u8).t, self.read_key(st, args[1][1].key() + "[%d]" % i, u8).t) for i in range(n)]
+            return Val("(and %s)" % " ".join(eqs), ("bool",))
         def const_of(v):
             m = re.match(r"^\(_ bv(\d+) (\d+)\)$", v.t) if isinstance(v, Val) else None
             return int(m.group(1)) if m else None
@@ -847,7 +882,7 @@ class Executor:
     def do_call(self, st, fn, dst_text, callee, argtexts, frame):
         args = [self.operand(st, fn, a, frame) for a in argtexts]
         short = re.sub(r"::<.*?>", "", callee)
-        bi = self.builtin(short, callee, args)
+        bi = self.builtin(short, callee, args, st)
         if bi is not None:
             dstp = self.parse_place(st, fn, dst_text, frame)
             self.write_place(st, fn, dstp, bi, frame)
@@ -1023,7 +1058,7 @@ class Executor:
                             st.store[nframe + an + "#discr"] = Val(bvconst(av[2], 64), ("bv", 64, True))
                     return self.exec_block(st, cfn, "bb0", nframe, stack + [(fn, frame, dst_text, nxt)])
                 return self.exec_block(st, fn, nxt, frame, stack)
-            m = re.match(r"^(.*?)\((.*)\) -> unwind.*$", term)
+            m = re.match(r"^(.*?)\((.*)\) -> unwind.*$", term) or re.match(r"^(.*?(?:expect_failed|unwrap_failed|panic\w*|slice_\w+_fail|handle_alloc_error|capacity_overflow)(?:::<.*>)?)\((.*)\) -> bb\d+$", term)
             if m:
                 self.paths.append(Path(st, "panic", "diverging call " + m.group(1), fn))
                 return
@@ -1036,6 +1071,17 @@ class Executor:
         if s.startswith("assume("):
             v = self.operand(st, fn, s[len("assume("):-1], frame)
             st.conds.append(v.t)
+            return
+        m = re.match(r"^copy_nonoverlapping\(dst = (.*), src = (.*), count = (.*)\)$", s)
+        if m:
+            # memcpy through raw pointers: the destination object becomes arbitrary
+            d = self.operand(st, fn, m.group(1), frame)
+            if isinstance(d, Val) or d[0] != "ref":
+                raise Untranslatable("copy_nonoverlapping to a non-pointer")
+            pre = d[1].key()
+            st.epoch[pre] = st.epoch.get(pre, 0) + 1
+            for k in [k for k in st.store if has_prefix(k, pre)]:
+                del st.store[k]
             return
         m = re.match(r"^(.*?) = (.*)$", s)
         if not m:
